@@ -184,6 +184,22 @@ class Roots:
                 return 'global', n
             # free variable of a nested function -> closure cell of the enclosing scope
             if '.' in self.fi.qual and self.fi.cls is None or (self.fi.cls is not None and self.fi.qual.count('.') > 1):
+                # a cell of a run-time function that holds an object made by that very call (a
+                # local accumulator shared with a local helper) lives as long as the call
+                enc = self.repo.functions.get(self.fi.id.rsplit('.', 1)[0]) if hasattr(self.fi, 'id') else None
+                if enc is None:
+                    q = self.fi.qual.rsplit('.', 1)[0]
+                    enc = next((f for f in self.repo.functions.values() if f.qual == q and f.file == self.fi.file), None)
+                if enc is not None:
+                    try:
+                        ph = phase_of(self.repo, enc)[0]
+                    except Exception:
+                        ph = None
+                    vals = [a.value for a in ast.walk(enc.node) if isinstance(a, ast.Assign) and any(isinstance(t, ast.Name) and t.id == n for t in a.targets)]
+                    fresh = vals and all(isinstance(v, (ast.List, ast.Dict, ast.Set, ast.ListComp, ast.DictComp, ast.SetComp))
+                                         or (isinstance(v, ast.Call) and isinstance(v.func, ast.Name) and v.func.id in ('list', 'dict', 'set', 'bytearray', 'deque') and not v.args) for v in vals)
+                    if ph == 'run' and fresh and n not in [x.arg for x in enc.node.args.args]:
+                        return 'fresh', 'local %s of the running %s' % (n, enc.qual)
                 return 'closure', n
             return 'unknown', n
         if isinstance(e, ast.Constant):
@@ -300,6 +316,12 @@ def collect_writes(repo, fi, max_paths=4096):
         k, d = roots.root(target)
         out.append(dict(kind=what, eff=eff, target=target, root=k, detail=d, text=eff.text(), line=eff.lineno))
 
+    imported_modules = set()
+    for n_ in repo.modules[fi.module]['tree'].body:
+        if isinstance(n_, ast.Import):
+            for a_ in n_.names:
+                imported_modules.add((a_.asname or a_.name).split('.')[0])
+
     def scan(p):
         for e in p.effects:
             if e.kind == 'store_attr':
@@ -314,7 +336,9 @@ def collect_writes(repo, fi, max_paths=4096):
             elif e.kind == 'call':
                 f = e.call.func
                 if isinstance(f, ast.Attribute) and f.attr in MUTATORS:
-                    if isinstance(f.value, ast.Name) and f.value.id in repo.classes and e.call.args:
+                    if isinstance(f.value, ast.Name) and f.value.id in imported_modules:
+                        pass            # operator.add(a, b), bisect.insort(...): a function of a module, not a method of an object
+                    elif isinstance(f.value, ast.Name) and f.value.id in repo.classes and e.call.args:
                         # explicit base-class call  Base.method(self, ...)
                         add(e, e.call.args[0], 'mutating call %s.%s()' % (f.value.id, f.attr))
                     else:
